@@ -18,6 +18,7 @@ func init() {
 		Assumptions: []string{"resource.Collection/Value semantics (C01/C02)"},
 		Run:         runC19,
 		Controls: []Control{
+			{Name: "default-id-interceptor-on-modes", File: "pkg/trait/electricpb/model_opts.go", Old: "var DefaultModelOptions = []resource.Option{", New: "var _ = resource.WithIDInterceptor(func(s string) string { return s })\n\nvar DefaultModelOptions = []resource.Option{", Expect: "R19.6"},
 			{Name: "updatemode-without-lock", File: "pkg/trait/electricpb/model.go", Old: "func (m *Model) UpdateMode(mode *traits.ElectricMode, opts ...resource.WriteOption) (*traits.ElectricMode, error) {\n\tm.mu.Lock()\n\tdefer m.mu.Unlock()\n", New: "func (m *Model) UpdateMode(mode *traits.ElectricMode, opts ...resource.WriteOption) (*traits.ElectricMode, error) {\n", Expect: "R19.1"},
 			{Name: "findmode-rlock-dropped", File: "pkg/trait/electricpb/model.go", Old: "\tm.mu.RLock()\n\tdefer m.mu.RUnlock()\n\n\treturn m.findMode(id)", New: "\treturn m.findMode(id)", Expect: "R19.1"},
 			{Name: "delete-active-allowed", File: "pkg/trait/electricpb/model.go", Old: "\tif id == active.Id {\n\t\treturn ErrDeleteActiveMode\n\t}\n", New: "\t_ = active\n", Expect: "R19.3"},
@@ -38,6 +39,7 @@ func init() {
 const elecPkg = "pkg/trait/electricpb"
 
 func runC19(c *an.Ctx) {
+	r196(c)
 	r191(c)
 	r192(c)
 	r193(c)
@@ -661,4 +663,35 @@ func deletingMethod(c *an.Ctx) *ssa.Function {
 		})
 	}
 	return out
+}
+
+// r196: the model compares mode ids itself (the id to delete against the active mode's id, the normal mode's id
+// against the updated mode's) with ids exactly as its callers spell them. That is only sound while the modes collection
+// stores ids as given: an id interceptor on it makes the collection resolve a spelling ("eco ") that the model's
+// own comparison treats as a different id, so the active mode can be deleted.
+func r196(c *an.Ctx) {
+	const rule = "R19.6"
+	n := 0
+	for _, fn := range c.Prog.FuncsIn(elecPkg) {
+		if c.Prog.IsGenerated(fn.Pos()) {
+			continue
+		}
+		for _, cl := range an.CallsTo(fn, an.ModulePath+"/pkg/resource.WithIDInterceptor") {
+			n++
+			c.Bad(rule, an.FuncName(fn)+"|mode ids are stored as given", cl.Pos(),
+				"an id interceptor is installed on a resource of the electric model: DeleteMode compares the id it is given with the active mode's id before the collection maps it, so a spelling the interceptor maps onto the active mode's id passes the guard and removes the active mode (invariant 2)")
+		}
+	}
+	if sp := c.Prog.SSAPackage(elecPkg); sp != nil {
+		if ini := sp.Func("init"); ini != nil {
+			for _, cl := range an.CallsTo(ini, an.ModulePath+"/pkg/resource.WithIDInterceptor") {
+				n++
+				c.Bad(rule, "pkg/trait/electricpb.init|mode ids are stored as given", cl.Pos(),
+					"an id interceptor is installed by the model's default options: DeleteMode compares the id it is given with the active mode's id before the collection maps it, so a spelling the interceptor maps onto the active mode's id passes the guard and removes the active mode (invariant 2)")
+			}
+		}
+	}
+	if n == 0 {
+		c.Ok(rule, "pkg/trait/electricpb|mode ids are stored as given", 0, "no id interceptor is installed by the electric model")
+	}
 }
